@@ -417,3 +417,103 @@ func (t *Term) String() string {
 	}
 	return "(" + t.Op + " " + strings.Join(parts, " ") + ")"
 }
+
+// Eval evaluates t under a model (variable name -> value; missing variables read as 0).
+// Booleans are 0/1. ok is false when an operator is not supported by the evaluator.
+func Eval(t *Term, m map[string]uint64, memo map[int64]uint64) (uint64, bool) {
+	if v, ok := memo[t.ID]; ok {
+		return v, true
+	}
+	var res uint64
+	switch t.Op {
+	case "true":
+		res = 1
+	case "false":
+		res = 0
+	case "const":
+		res = t.Val
+	case "var":
+		res = m[t.Name]
+		if t.Sort == 0 && res != 0 {
+			res = 1
+		}
+		res &= mask64(t.Sort)
+	default:
+		args := make([]uint64, len(t.Args))
+		for i, a := range t.Args {
+			v, ok := Eval(a, m, memo)
+			if !ok {
+				return 0, false
+			}
+			args[i] = v
+		}
+		b2u := func(b bool) uint64 {
+			if b {
+				return 1
+			}
+			return 0
+		}
+		w := 0
+		if len(t.Args) > 0 {
+			w = t.Args[0].Sort
+		}
+		switch t.Op {
+		case "not":
+			res = 1 - args[0]
+		case "and":
+			res = args[0] & args[1]
+		case "or":
+			res = args[0] | args[1]
+		case "ite":
+			if args[0] != 0 {
+				res = args[1]
+			} else {
+				res = args[2]
+			}
+		case "=":
+			res = b2u(args[0] == args[1])
+		case "bvult":
+			res = b2u(args[0] < args[1])
+		case "bvule":
+			res = b2u(args[0] <= args[1])
+		case "bvugt":
+			res = b2u(args[0] > args[1])
+		case "bvuge":
+			res = b2u(args[0] >= args[1])
+		case "bvslt":
+			res = b2u(sext(args[0], w) < sext(args[1], w))
+		case "bvsle":
+			res = b2u(sext(args[0], w) <= sext(args[1], w))
+		case "bvsgt":
+			res = b2u(sext(args[0], w) > sext(args[1], w))
+		case "bvsge":
+			res = b2u(sext(args[0], w) >= sext(args[1], w))
+		case "bvnot":
+			res = ^args[0] & mask64(t.Sort)
+		case "extract":
+			res = (args[0] >> uint(t.Ext2)) & mask64(t.Sort)
+		case "zero_extend":
+			res = args[0]
+		case "sign_extend":
+			res = uint64(sext(args[0], w)) & mask64(t.Sort)
+		case "bvadd", "bvsub", "bvmul", "bvand", "bvor", "bvxor", "bvshl", "bvlshr", "bvashr", "bvudiv", "bvurem", "bvsdiv", "bvsrem":
+			// reuse the constant folder
+			r := Bin(t.Op, Const(args[0], t.Sort), Const(args[1], t.Sort))
+			if r.Op != "const" {
+				return 0, false // division by zero: solver semantics, do not guess
+			}
+			res = r.Val
+		default:
+			return 0, false
+		}
+	}
+	memo[t.ID] = res
+	return res, true
+}
+
+func mask64(w int) uint64 {
+	if w == 0 {
+		return 1
+	}
+	return mask(w)
+}
